@@ -8,7 +8,7 @@ from hypothesis import strategies as st
 from vf import gwl
 from vf.core import Obs
 from vf.lab import LETTERS, lab_spec, real_idx, wid
-from vf.prog import World, execute, expect_sequential, expect_transfer, flat_pairs, known_comp, model_apply, op_direct, op_distribute, op_transfer, resolve, trough_indices, vs_ok
+from vf.prog import ops_list, World, execute, expect_sequential, expect_transfer, flat_pairs, known_comp, model_apply, op_direct, op_distribute, op_transfer, resolve, trough_indices, vs_ok
 
 PID = "C05"
 RULE = (
@@ -92,7 +92,7 @@ def _case(draw, focus, tier="quick"):
     a = op_direct(vs, kinds=("aspirate",), max_n=4)
     anyop = st.one_of(t, t, d, dc, a, refused)
     fop = {"transfer": t, "distribute": d, "dispense": dc, "mixed": anyop}[focus]
-    return {"labs": labs, "device": draw(st.sampled_from(["evo", "fluent"])), "q": q, "M": draw(st.sampled_from([950, 50, 7, 33.3])), "ops": draw(st.lists(st.one_of(fop, anyop), min_size=1, max_size=12 if tier == "quick" else 20))}
+    return {"labs": labs, "device": draw(st.sampled_from(["evo", "fluent"])), "q": q, "M": draw(st.sampled_from([950, 50, 7, 33.3])), "ops": draw(ops_list(st.one_of(fop, anyop), 1, 12 if tier == "quick" else 20))}
 
 
 def strategy(tier, stratum):
